@@ -9,7 +9,7 @@ use crate::data::layer_content_metadata::LayerContentMetadata;
 use crate::generic::GenericMetadata;
 use crate::layer::shared::{
     ReadLayerError, WriteLayerError, delete_layer, replace_layer_exec_d_programs,
-    replace_layer_sboms,
+    replace_layer_sboms, replace_layer_types,
 };
 use crate::layer::{ExistingLayerStrategy, LayerData, LayerError, MetadataMigration};
 use crate::layer_env::LayerEnv;
@@ -44,25 +44,17 @@ pub(crate) fn handle_layer<B: Buildpack + ?Sized, L: Layer<Buildpack = B>>(
                     handle_update_layer(context, &layer_data, &mut layer)
                 }
                 ExistingLayerStrategy::Keep => {
-                    // We need to rewrite the metadata even if we just want to keep the layer around
-                    // since cached layers are restored without their types, causing the layer to be
-                    // discarded.
-                    write_layer(
-                        &context.layers_dir,
-                        &layer_data.name,
-                        &layer_data.env,
-                        &LayerContentMetadata {
-                            // We cannot copy the types from layer_data since they're not restored by the CNB lifecycle.
-                            // We must call layer.types here to get the correct types for the layer.
-                            types: Some(layer.types()),
-                            metadata: layer_data.content_metadata.metadata,
-                        },
-                        ExecDPrograms::Keep,
-                        Sboms::Keep,
-                    )
-                    .map_err(|error| {
-                        LayerErrorOrBuildpackError::LayerError(LayerError::WriteLayerError(error))
-                    })?;
+                    // We need to rewrite the layer types even if we just want to keep the layer
+                    // around since cached layers are restored without their types, causing the
+                    // layer to be discarded. Everything else, including metadata keys that are
+                    // unknown to `L::Metadata`, is left exactly as it is on disk. We must call
+                    // layer.types here since the types are not restored by the CNB lifecycle.
+                    replace_layer_types(&context.layers_dir, &layer_data.name, layer.types())
+                        .map_err(|error| {
+                            LayerErrorOrBuildpackError::LayerError(LayerError::WriteLayerError(
+                                WriteLayerError::WriteLayerMetadataError(error),
+                            ))
+                        })?;
 
                     // Reread the layer from disk to ensure the returned layer data accurately reflects
                     // the state on disk after we messed with it.
